@@ -426,6 +426,9 @@ class PteraTransformer(NodeTransformer):
                         targets=[ast.Name(id=val_sym, ctx=ast.Store())],
                         value=value,
                     ),
+                    # Python looks the container up before it evaluates the
+                    # index (matters if the name is unbound)
+                    ast.Expr(ast.Name(id=target.value.id, ctx=ast.Load())),
                     ast.Assign(
                         targets=[ast.Name(id=idx_sym, ctx=ast.Store())],
                         value=slc,
